@@ -92,6 +92,21 @@ func run(c nlhist.Case) (sig string, err error, st stats) {
 				}
 			}
 		case "delete":
+			// the user deleted this file: its chunks stop being "stored by local upload" unless
+			// another uploaded file still contains them (a chunk that survives only because a cached
+			// file shares it is cache content from now on)
+			df := w.Files[op.F%len(w.Files)]
+			for a := range df.All {
+				keep := false
+				for _, g := range w.Files {
+					if g.Idx != df.Idx && g.Uploaded && g.All[a] > 0 {
+						keep = true
+					}
+				}
+				if !keep {
+					delete(uploaded, a)
+				}
+			}
 			stored, _ := w.N.Stored()
 			for a := range uploaded {
 				if _, ok := stored[a]; !ok {
